@@ -273,7 +273,7 @@ func (b *Built) run(input []byte, o *rtapi.RunOpts, script map[int]*rtapi.Block,
 // RefOptions derives reference options from runtime options and the variant.
 func RefOptions(o *rtapi.RunOpts, fl rtapi.Flags) peg.Options {
 	return peg.Options{Filename: o.Filename, Entrypoint: o.Entrypoint, AllowInvalid: o.AllowInvalid, NoRecover: o.NoRecover,
-		InitState: o.InitState, HasState: fl.HasState(), DynamicRecoveryScope: true, LeftRec: fl.LeftRecursion}
+		InitState: o.InitState, HasState: fl.HasState(), LeftRec: fl.LeftRecursion}
 }
 
 // Dedupe removes later errors with a message already seen.
